@@ -5,6 +5,7 @@ Ghost invariant D(a) of an Atom a: a.diff is the derivative of a.value with resp
 Atom class is proved to preserve D against the calculus table written here (the oracle); placement maps are
 proved to send the derivative w.r.t. occurrence k of equation e to (row(e), column(token))."""
 import numpy as np
+from fractions import Fraction
 from pyvc.prove import contract
 from pyvc.bounded import bounded
 from irispie.aldi import differentiators as AD
@@ -320,3 +321,185 @@ def unsupported_functions_are_rejected(B):
             continue
         B.fail(f"{name}(Atom) is neither differentiated by a rule nor rejected", {"function": name, "result": repr(r)})
         return
+
+
+# ------------------------------------------------------------------------------ two-sided finite differences of user functions
+from irispie.aldi import finite_differentiators as FD
+PF = "irispie.aldi.finite_differentiators:"
+FD_TARGETS = [PF + n for n in ("finite_differentiator", "_calculate_finite_derivatives", "_partial_times_inner", "_partial_two_sided_derivative",
+                               "_plus_epsilon", "_get_epsilon", "_collect_arg_values", "_collect_arg_diffs")]
+
+
+def _step(K, v):
+    """the documented step: 1e-6 * max(|v|, 1)"""
+    if not K.symbolic:
+        return max(abs(v), 1) * 1e-6
+    a = K.ite(v >= 0, v, -v)
+    return K.ite(a >= 1, a, 1) * K.frac(Fraction(1e-6))      # the double nearest to 1e-6, exactly
+
+
+@contract("C02", targets=FD_TARGETS, instances=[("generic",), ("quadratic",)], opts={"max_paths": 400})
+def user_function_two_sided_differences(K, kind):
+    """A user context function f(x, y, c) applied to two expressions (atoms satisfying D) and a plain number:
+    value = f(values); diff = sum over the atom arguments of the two-sided difference quotient of f in that argument
+    (step 1e-6*max(|v|,1), all other arguments at their values) times the argument's diff.  For a quadratic f the
+    quotient IS the partial derivative, so the result satisfies D exactly."""
+    a, f, fp = atom(K, "f")
+    b, g, gp = atom(K, "g")
+    c = K.real("c", sample=(-3, 3))
+    if kind == "quadratic":
+        q = [K.real(f"q{i}", sample=(-2, 2)) for i in range(7)]
+        U = lambda x, y, z: q[0] * x * x + q[1] * x * y + q[2] * y * y + q[3] * x * z + q[4] * y + q[5] * z * z + q[6]     # noqa: E731
+    elif K.symbolic:
+        import z3
+        Uf = z3.Function("user_f", z3.RealSort(), z3.RealSort(), z3.RealSort(), z3.RealSort())
+        U = lambda x, y, z: Uf(*[K.frac(v) if isinstance(v, (int, float)) else v for v in (x, y, z)])     # noqa: E731
+    else:
+        import math
+        U = lambda x, y, z: math.sin(x) * y + math.exp(0.1 * z * x) - y * y * z     # noqa: E731
+    wrapped = K.call(FD.finite_differentiator, K.callable(U))
+    r = K.call(wrapped, a, b, c)
+    ef, eg = _step(K, f), _step(K, g)
+    K.ensure("value is f at the argument values", K.real_eq(val(K, r), U(f, g, c)))
+    quot = (U(f + ef, g, c) - U(f - ef, g, c)) / (2 * ef) * fp + (U(f, g + eg, c) - U(f, g - eg, c)) / (2 * eg) * gp
+    K.ensure("diff is the sum of two-sided difference quotients times the inner derivatives (the plain number contributes nothing)",
+             K.real_eq(dif(K, r), quot))
+    if kind == "quadratic":
+        true = (2 * q[0] * f + q[1] * g + q[3] * c) * fp + (q[1] * f + 2 * q[2] * g + q[4]) * gp
+        K.ensure("quadratic user function: diff is the exact derivative", K.real_eq(dif(K, r), true))
+    K.ensure("result is a plain (non-log) atom", K.attr(r, "_logly") == False)     # noqa: E712
+    K.ensure("the arguments are left untouched", K.And(K.real_eq(val(K, a), f), K.real_eq(val(K, b), g), K.real_eq(dif(K, a), fp), K.real_eq(dif(K, b), gp)))
+
+
+@contract("C02", targets=FD_TARGETS, instances=[(2,), (3,)], opts={"max_paths": 400})
+def user_function_differences_on_arrays(K, n):
+    """Array-valued evaluation (stacked time evaluates every column at once): the perturbed argument lists must be
+    independent copies - the values handed in are not modified and the plus/minus evaluations see different data.
+    f is linear, so the element-wise quotient is the exact derivative."""
+    xv = K.array("x", (n,), nan=False)
+    xd = K.array("xd", (n,), nan=False)
+    yv = K.array("y", (n,), nan=False)
+    yd = K.array("yd", (n,), nan=False)
+    x0, y0 = K.snapshot(xv), K.snapshot(yv)
+    a = K.call(Atom.no_context, xv, xd, False)
+    b = K.call(Atom.no_context, yv, yd, False)
+    c1 = K.real("c1", sample=(-2, 2))
+    c2 = K.real("c2", sample=(-2, 2))
+    U = K.callable(lambda x, y: K.binop("+", K.binop("*", x, c1), K.binop("*", y, c2)))
+    r = K.call(K.call(FD.finite_differentiator, U), a, b)
+    rv, rd = K.getattr(r, "value"), K.getattr(r, "diff")
+    for j in range(n):
+        x_j, y_j = K.cell_val(K.cell(x0, j)), K.cell_val(K.cell(y0, j))
+        K.ensure(f"column {j}: value", K.real_eq(K.cell_val(K.cell(rv, j)), c1 * x_j + c2 * y_j))
+        K.ensure(f"column {j}: diff is the derivative", K.real_eq(K.cell_val(K.cell(rd, j)), c1 * K.cell_val(K.cell(xd, j)) + c2 * K.cell_val(K.cell(yd, j))))
+        K.ensure(f"column {j}: the argument values are not modified", K.And(K.cell_eq(K.cell(xv, j), K.cell(x0, j)), K.cell_eq(K.cell(yv, j), K.cell(y0, j))))
+
+
+# ------------------------------------------------------------------------------ steady-state Jacobians (levels and changes)
+from irispie.steadiers import _jacobian as SJ
+from irispie.aldi.maps import ArrayMap
+
+
+class _DiffContext:
+    """harness stand-in for aldi Context: eval_diff_to_array(steady_array, column) returns the stacked derivative rows
+    of the equations evaluated at that column - a different array for every column"""
+
+    def __init__(self, table):
+        self.table = table
+
+    def eval_diff_to_array(self, steady_array, column_offset):
+        return self.table(column_offset)
+
+
+@contract("C02", targets=["irispie.steadiers._jacobian:NonflatSteadyJacobian.eval", "irispie.steadiers._jacobian:FlatSteadyJacobian.eval",
+                          "irispie.jacobians.base:_Jacobian._create_jacobian_matrix", "irispie.jacobians.base:DenseJacobian._initialize_jacobian_matrix"],
+          instances=[("nonflat",), ("flat",)], cross=0)
+def steady_jacobian_blocks(K, which):
+    """The non-flat steady system stacks the equations evaluated at t and at t+k; its unknowns are levels L and
+    changes d with x[t+s] = L + s*d.  Given the stacked derivative rows D(col) delivered by the aldi context
+    (column 0: seeds 1 = d/dL at t; column 1: seeds `shift`), the Jacobian must be
+        [ P(D0(t))      P(D1(t))                 ]
+        [ P(D0(t+k))    P(D1(t+k)) + k*P(D0(t+k)) ]
+    where P is the placement of derivative rows into (equation, unknown) cells: the second block row holds the
+    derivatives of the equations AT t+k (the evaluation point moves with the residual), and d(x[t+k+s])/dd = s + k."""
+    import z3
+    col = K.int("column", 0, 20)
+    k = K.int("k", 1, 5)
+    # two equations, two unknowns; equation 0 depends on both, equation 1 on the second only: 3 derivative rows
+    lhs = (np.array([0, 0, 1]), np.array([0, 1, 1]))
+    rhs = (np.array([0, 1, 2]), np.array([0, 0, 0]))
+    ncols = 2 if which == "nonflat" else 1
+    if K.symbolic:
+        dfun = z3.Function("D", z3.IntSort(), z3.IntSort(), z3.IntSort(), z3.RealSort())
+        zi = lambda v: z3.IntVal(v) if isinstance(v, int) else (v.t if hasattr(v, "t") else v)      # noqa: E731
+        table = lambda c: K.derived_array((3, ncols), lambda r, j: K.real_cell(dfun(zi(r), zi(j), zi(c))))      # noqa: E731
+        Dv = lambda r, j, c: dfun(zi(r), zi(j), zi(c))      # noqa: E731
+    else:
+        table = lambda c: np.array([[np.sin(1.0 + r + 3 * j + 0.7 * c) for j in range(ncols)] for r in range(3)])      # noqa: E731
+        Dv = lambda r, j, c: float(np.sin(1.0 + r + 3 * j + 0.7 * c))      # noqa: E731
+    cls = SJ.NonflatSteadyJacobian if which == "nonflat" else SJ.FlatSteadyJacobian
+    me = K.obj(cls, _aldi_context=K.obj(_DiffContext, table=K.callable(table)), _map=K.obj(ArrayMap, lhs=lhs, rhs=rhs), _shape=(2, 2),
+               NONFLAT_STEADY_SHIFT=k)
+    J = K.call(cls.eval, me, None, col)
+    place = {(0, 0): 0, (0, 1): 1, (1, 1): 2}        # (equation, unknown) -> derivative row
+    if which == "flat":
+        K.ensure("shape", K.shape(J) == (2, 2))
+        for i in range(2):
+            for j in range(2):
+                want = Dv(place[(i, j)], 0, col) if (i, j) in place else 0
+                K.ensure(f"cell ({i},{j}) is the derivative of equation {i} w.r.t. unknown {j} at the evaluation column", K.real_eq(K.cell_val(K.cell(J, i, j)), want))
+        return
+    K.ensure("shape: two block rows (t, t+k) by two block columns (levels, changes)", K.shape(J) == (4, 4))
+    for blk, c in ((0, col), (1, col + k)):
+        for i in range(2):
+            for j in range(2):
+                d0 = Dv(place[(i, j)], 0, c) if (i, j) in place else 0
+                d1 = Dv(place[(i, j)], 1, c) if (i, j) in place else 0
+                K.ensure(f"block row {blk}: d equation {i} / d level {j} is taken at its own evaluation column", K.real_eq(K.cell_val(K.cell(J, 2 * blk + i, j)), d0))
+                K.ensure(f"block row {blk}: d equation {i} / d change {j} is taken at its own evaluation column (plus k * level derivative at t+k)",
+                         K.real_eq(K.cell_val(K.cell(J, 2 * blk + i, 2 + j)), d1 + (k * d0 if blk else 0)))
+
+
+NONFLAT_SOURCE = r"""
+!transition_variables
+    x, z
+!log_variables
+    z
+!parameters
+    c, g
+!transition_equations
+    x*x[-1] + 0.1*x[+1]^2 = c + 0.2*z;
+    z*z[-1] = g*z[+1]^1.5 + x;
+"""
+
+
+@bounded("C02", bound="one nonlinear non-flat model (2 equations, a log-variable, leads and lags) at 3 level/change points with nonzero changes, plus the zero-change point; central differences of the evaluator's own eval_func")
+def nonflat_steady_jacobian_against_finite_differences(B):
+    """The steady-state Jacobian returned by the real NonflatSteadyEvaluator.eval_jacob equals central finite
+    differences of the residual function it is the Jacobian of (eval_func), in levels and changes, for plain and
+    log-variables, at points where the steady changes are not zero."""
+    import irispie as ir
+    from irispie.steadiers.evaluators import NonflatSteadyEvaluator
+    for (Lx, Dx, Lz, Dz) in ((2.0, 0.0, 1.5, 1.0), (2.0, 0.3, 1.5, 1.04), (1.2, -0.2, 0.8, 0.97), (3.0, 0.5, 2.0, 1.1)):
+        B.case()
+        m = ir.Simultaneous.from_string(NONFLAT_SOURCE, flat=False)
+        m.assign(c=5.0, g=0.9, x=(Lx, Dx), z=(Lz, Dz))
+        names = m.get_names()
+        qids = tuple(names.index(n) for n in ("x", "z"))
+        eqs = tuple(m.get_steady_equation_objects())[:2]
+        ev = NonflatSteadyEvaluator(qids, qids, eqs, m.get_quantities(), m._variants[0], context=m.get_context(), iter_printer_settings={"every": 10 ** 9})
+        guess = np.array(ev.get_init_guess(), dtype=float).flatten() if hasattr(ev, "get_init_guess") else None
+        if guess is None:
+            B.fail("evaluator offers no initial guess", {})
+            return
+        J = np.array(ev.eval_jacob(guess), dtype=float)
+        fd = np.zeros_like(J)
+        for j in range(len(guess)):
+            h = 1e-6 * max(abs(guess[j]), 1)
+            gp, gm = guess.copy(), guess.copy()
+            gp[j] += h
+            gm[j] -= h
+            fd[:, j] = (np.array(ev.eval_func(gp)).flatten() - np.array(ev.eval_func(gm)).flatten()) / (2 * h)
+        if J.shape != fd.shape or not np.all(np.abs(J - fd) < 1e-5 * np.maximum(1, np.abs(fd))):
+            B.fail("non-flat steady Jacobian differs from the derivative of the steady residuals", {"levels_changes": [Lx, Dx, Lz, Dz], "eval_jacob": J.tolist(), "finite_differences": fd.round(6).tolist()})
+            return
